@@ -6,6 +6,7 @@ import GenlmModel.Proofs.IncCky
 import GenlmModel.Proofs.EarleyQ
 import GenlmModel.Proofs.EarleyNext
 import GenlmModel.Proofs.LimPrefix
+import GenlmModel.Proofs.EarleyRescaled
 /-! # C04 — grammar language models are the exact left-to-right factorisation -/
 namespace Genlm.Props.C04
 alias normalize_sums_to_one := Genlm.normalize_sums_to_one
@@ -40,4 +41,16 @@ alias conditionals_sum_to_one_limit := Genlm.addEOS_cond_sum_one
 /-- the product of the conditionals along x·EOS is weight(x) / total weight -/
 alias chain_rule_limit := Genlm.addEOS_chain_rule
 alias chain_rule_limit_real := Genlm.addEOS_chain_rule_lm
+
+/-! ## the rescaled Earley language model -/
+/-- next-token weights of the rescaled parser = the plain ones times ONE common factor, which normalisation cancels -/
+alias rescaled_next_token_common_factor := Genlm.earleyRescaled_ntw_raw
+alias rescaled_p_next_eq_plain := Genlm.earleyRescaled_pnext_eq
+/-- the rescaled LM: conditionals = ratios of prefix weights, zero outside the vocabulary, sum one -/
+alias rescaled_lm_correct := Genlm.earleyRescaled_lm_next
+/-- `logp`: the column entry is the plain entry times the product of the coefficients that are subtracted in log space -/
+alias rescaled_logp_parts := Genlm.earleyRescaled_logp
+/-- why long contexts do not underflow: with the code's coefficients column k+1 holds the CONDITIONAL weight -/
+alias rescaled_column_holds_conditional := Genlm.earleyRescaled_column_value
+alias rescaled_coefficient_closed_form := Genlm.rescaleChoice_closed_form
 end Genlm.Props.C04
